@@ -1,1 +1,107 @@
-import PyshaclModel
+/-
+  C05 — SPARQL-based constraints report exactly their query's solutions, one result each.
+
+  rdflib's SPARQL engine is outside the model: the solutions of the declared query for a pre-bound focus node
+  are a parameter (`sols`, shipped by the harness, which runs the same query text directly through rdflib with
+  the same bindings).  What is proved is pySHACL's part, for every list of solutions (any number, any
+  duplicates, any order), every shape and every focus node:
+  de-duplication, solution → result mapping, per-result messages, component matching, forbidden syntax.
+  `forbidden_is_failure_partial`: the screens of `check_invalid_sparql` are regular expressions on query text;
+  the theorem covers the template family described by `SparqlTemplate`, not arbitrary query text.
+-/
+import PyshaclProofs.SparqlProofs
+namespace Pyshacl.C05
+open Pyshacl
+
+/-- the results of a sh:sparql constraint for a focus node are the images of its distinct violations -/
+theorem results_are_images (s : Shape) (cn : Term) (extraMsgs : List Term) (f : Term) (sols : List Sol) :
+    sparqlResults s cn extraMsgs f sols = (violationsOf sols []).map (resultOfViolation s cn extraMsgs f) :=
+  sparqlResults_eq s cn extraMsgs f sols
+
+/-- exactly the distinct solutions: a (?this, ?path, ?value, other bindings) tuple is reported iff some
+    solution projects onto it … -/
+theorem solutions_exact (sols : List Sol) (t p v : Option Term) (o : List (String × Term)) :
+    Violation.tpv t p v o ∈ violationsOf sols [] ↔ ∃ s ∈ sols, projOf s = some (.tpv t p v o) := by
+  rw [violationsOf_mem_tpv]; simp
+
+/-- … each once (no duplicate results), whatever the multiplicity of the solution -/
+theorem one_result_per_distinct_solution (s : Shape) (cn : Term) (extraMsgs : List Term) (f : Term) (sols : List Sol) :
+    (violationsOf sols []).Nodup ∧
+    (sparqlResults s cn extraMsgs f sols).length = (violationsOf sols []).length ∧
+    ((violationsOf sols []).filter Violation.isFailure).length ≤ 1 := by
+  refine ⟨violationsOf_nodup sols [] List.nodup_nil, ?_, violationsOf_failures_le_one sols [] (by simp)⟩
+  rw [sparqlResults_eq, List.length_map]
+
+/-- sh:value and sh:resultPath come from ?value / ?path, the focus node from ?this (default: the pre-bound
+    focus node; default value of a node shape: the focus node; default path: the shape's path) -/
+theorem value_and_path_from_bindings (s : Shape) (cn : Term) (extraMsgs : List Term) (f : Term)
+    (t p v : Option Term) (o : List (String × Term)) :
+    let r := resultOfViolation s cn extraMsgs f (.tpv t p v o)
+    r.focus = t.getD f ∧
+    r.value = (match v with | some x => some x | none => if s.isProp then none else some f) ∧
+    (match r with | .mk _ _ path _ _ _ _ _ _ => path) = (match p with | some x => some x | none => if s.isProp then s.path else none) ∧
+    r.component = sh "SPARQLConstraintComponent" ∧ r.shape = s.node ∧ r.severity = s.severity := by
+  cases v <;> cases p <;> simp [resultOfViolation, mkResult, Result.focus, Result.value, Result.component, Result.shape,
+    Result.severity] <;> decide
+
+/-- messages are filled from that solution's own bindings only: the messages of a result are a function of
+    its own violation — the other solutions of the query, earlier results and other focus nodes do not occur -/
+theorem messages_local (s : Shape) (cn : Term) (extraMsgs : List Term) (f : Term) (sols sols' : List Sol) (vio : Violation)
+    (h : vio ∈ violationsOf sols []) (h' : vio ∈ violationsOf sols' []) :
+    ∃ r ∈ sparqlResults s cn extraMsgs f sols, ∃ r' ∈ sparqlResults s cn extraMsgs f sols',
+      r = resultOfViolation s cn extraMsgs f vio ∧ r' = r := by
+  refine ⟨resultOfViolation s cn extraMsgs f vio, ?_, resultOfViolation s cn extraMsgs f vio, ?_, rfl, rfl⟩
+  · rw [sparqlResults_eq]; exact List.mem_map.2 ⟨vio, h, rfl⟩
+  · rw [sparqlResults_eq]; exact List.mem_map.2 ⟨vio, h', rfl⟩
+
+/-- the declared templates with `{$var}` / `{?var}` replaced by this solution's bindings: the message list of
+    a result is `resultMessages` of the constraint's and the shape's declared messages over `fdict` -/
+theorem messages_are_filled_templates (s : Shape) (cn : Term) (extraMsgs : List Term) (f : Term)
+    (t p v : Option Term) (o : List (String × Term)) :
+    (resultOfViolation s cn extraMsgs f (.tpv t p v o)).messages =
+      resultMessages s.messages extraMsgs (some (o ++ (match t with | some x => [("this", x)] | none => []) ++
+        (match p with | some x => [("path", x)] | none => []) ++
+        (match (match v with | some x => some x | none => if s.isProp then none else some f) with
+          | some x => [("value", x)] | none => []))) := by
+  cases v <;> cases hp : s.isProp <;> simp [resultOfViolation, mkResult, Result.messages, hp, List.append_assoc] <;> (try rfl)
+
+/-- a SPARQL-based constraint component applies to a shape iff all its mandatory parameters have values -/
+theorem component_matching_exact (sg : Graph) (comps : List Component) (shape : Term) (c : Component) :
+    c ∈ applicableComponents sg comps shape ↔
+      c ∈ comps ∧ ∀ p ∈ c.params, p.optional = false → ∃ v, (⟨shape, p.path, v⟩ : Triple) ∈ sg :=
+  mem_applicableComponents sg comps shape c
+
+/-- what SHACL-SPARQL forbids, on the template family -/
+def Forbidden (t : SparqlTemplate) (prebound : List String) : Prop :=
+  t.minus = true ∨ t.values = true ∨ t.service = true ∨
+  (∃ vars, t.nested = some vars ∧ (vars = [] ∨ vars = ["*"] ∨
+      ∃ p ∈ prebound, p ≠ "shapesGraph" ∧ p ≠ "currentShape" ∧ p ∉ vars)) ∨
+  (∃ v, t.asVar = some v ∧ v ∈ prebound)
+
+theorem checkInvalid_iff (t : SparqlTemplate) (prebound : List String) :
+    checkInvalid t prebound = true ↔ Forbidden t prebound := by
+  unfold checkInvalid Forbidden
+  cases hn : t.nested <;> cases ha : t.asVar <;>
+    simp [List.any_eq_true, or_assoc]
+
+/-- a forbidden query produces a validation failure instead of a verdict (sh:sparql constraints) -/
+theorem forbidden_is_failure_partial (c : Env) (rec : Rec) (s : Shape) (fv : FV) (path : List PathEntry)
+    (cn : Term) (sel : Lit) (t : SparqlTemplate) (f : Term) (vs : List Term)
+    (hone : dedup (c.sg.objects s.node shSparql) = [cn])
+    (hsel : dedup (c.sg.objects cn shSelect) = [.lit sel]) (hstr : isStrVal sel = true)
+    (hmsg : dedup (c.sg.objects cn shMessage) = []) (hdeact : dedup (c.sg.objects cn shDeactivated) = [])
+    (hfv : fv = [(f, vs)]) (ht : c.sqInfo cn = some t)
+    (hforb : Forbidden t ["this", "shapesGraph", "currentShape"]) :
+    evalConstraint c rec s .sparql fv path = .error .validationFailure := by
+  have hci := (checkInvalid_iff t _).2 hforb
+  simp [evalConstraint, hone, hsel, hstr, hmsg, hdeact, hfv, ht, hci, foldOut]
+
+/-! non-vacuity: three solutions, two of them equal, one without ?this/?path/?value -/
+def exN (s : String) : Term := .iri ("http://ex.test/" ++ s)
+def sols3 : List Sol :=
+  [⟨[("this", exN "a"), ("value", exN "v1")]⟩, ⟨[("this", exN "a"), ("value", exN "v1")]⟩,
+   ⟨[("x", exN "z")]⟩, ⟨[("this", exN "a"), ("value", exN "v2")]⟩]
+example : (violationsOf sols3 []).length = 2 := by decide
+example : Forbidden { minus := true } ["this"] := Or.inl rfl
+
+end Pyshacl.C05
